@@ -12,6 +12,9 @@ from fractions import Fraction
 from . import terms as T
 
 
+EQUAL_LOG = []     # (lhs, rhs, verdict) of every identity decided by the normal form (cross-checked in the thorough tier)
+
+
 class Poly:
     """Sparse multivariate polynomial; monomial = tuple of (atom, exp) sorted."""
     __slots__ = ("t",)
@@ -204,7 +207,9 @@ class Algebra:
 
     def equal(self, a, b):
         ra, rb = self.rat(a), self.rat(b)
-        return self.reduce(ra.n * rb.d - rb.n * ra.d).is_zero()
+        res = self.reduce(ra.n * rb.d - rb.n * ra.d).is_zero()
+        EQUAL_LOG.append((a, b, res))
+        return res
 
     # -- conversion
     def _rat(self, t):
@@ -536,3 +541,94 @@ def eval_numeric(t, env):
     if h in ("angle", "epoch"):
         return eval_numeric(t[1], env)
     raise NotAlgebraic("not numeric: %s" % (t[0],))
+
+
+# --------------------------------------------------------------------------- second opinion (thorough tier)
+def _numeval(t, env, mp, memo):
+    """high-precision value of a term at a random point; uninterpreted functions get a pseudo-random value that is
+    a deterministic function of their (evaluated) arguments; red()/pos() differ from their argument by a multiple of 360"""
+    k = id(t)
+    if k in memo:
+        return memo[k][1]
+    h = t[0]
+    if h == "num":
+        v = mp.mpf(t[1].numerator) / mp.mpf(t[1].denominator)
+    elif h == "bool":
+        v = mp.mpf(1 if t[1] else 0)
+    elif h == "sym":
+        if t[1] == "pi":
+            v = mp.pi
+        elif t[1] == "d2r":
+            v = mp.pi / 180
+        else:
+            v = env.setdefault(t[1], _rand(mp, "sym:" + t[1]))
+    elif h == "add":
+        v = mp.mpf(0)
+        for x in t[1:]:
+            v += _numeval(x, env, mp, memo)
+    elif h == "mul":
+        v = mp.mpf(1)
+        for x in t[1:]:
+            v *= _numeval(x, env, mp, memo)
+    elif h == "pow":
+        b, e = _numeval(t[1], env, mp, memo), _numeval(t[2], env, mp, memo)
+        v = mp.power(b, e)
+    elif h in ("angle", "epoch"):
+        v = _numeval(t[1], env, mp, memo)
+    elif h == "call" and t[1] in ("sin", "cos", "tan", "atan", "sqrt", "asin", "acos") and len(t) == 3:
+        a = _numeval(t[2], env, mp, memo)
+        if t[1] in ("asin", "acos"):
+            a = mp.mpf(1) / (2 + abs(a)) if abs(a) > 1 else a     # keep the principal branch defined
+            v = getattr(mp, t[1])(a)
+        elif t[1] == "sqrt":
+            v = mp.sqrt(abs(a))
+        else:
+            v = getattr(mp, t[1])(a)
+    elif h == "call" and t[1] in ("red", "pos") and len(t) == 3:
+        a = _numeval(t[2], env, mp, memo)
+        kturns = int(_rand(mp, "turns:%s:%s" % (t[1], mp.nstr(a, 25))) * 5) - 2
+        v = a - 360 * kturns
+    elif h == "call" and t[1] == "abs" and len(t) == 3:
+        v = abs(_numeval(t[2], env, mp, memo))
+    else:
+        if h == "call":
+            args = [mp.nstr(_numeval(x, env, mp, memo), 25) for x in t[2:]]
+            v = _rand(mp, "fn:%s(%s)" % (t[1], ",".join(args)))
+        else:
+            v = _rand(mp, "term:" + repr(T.key(t)))
+    memo[k] = (t, v)
+    return v
+
+
+def _rand(mp, label):
+    import hashlib
+    hsh = hashlib.sha256(label.encode()).hexdigest()
+    return mp.mpf(int(hsh[:12], 16)) / mp.mpf(16 ** 12) * 2 + mp.mpf("0.25")
+
+
+def crosscheck(log, seeds=("a", "b", "c")):
+    """re-decide every logged identity by evaluating both sides of the *extracted terms* at pseudo-random points with
+    40 digits (Schwartz-Zippel style); returns the list of disagreements with the normal-form verdict"""
+    import mpmath as mp
+    mp.mp.dps = 40
+    bad = []
+    for a, b, verdict in log:
+        same = True
+        try:
+            for sd in seeds:
+                env = {}
+                memo = {}
+                # different random points: salt the symbol values
+                for x in T.walk(("bag", a, b)):
+                    if x[0] == "sym" and x[1] not in ("pi", "d2r"):
+                        env[x[1]] = _rand(mp, "sym:%s:%s" % (sd, x[1]))
+                va, vb = _numeval(a, env, mp, memo), _numeval(b, env, mp, memo)
+                scale = max(abs(va), abs(vb), mp.mpf(1))
+                if abs(va - vb) > scale * mp.mpf(10) ** (-25):
+                    same = False
+                    break
+        except Exception as e:     # evaluation failure is not a verdict
+            continue
+        if same != verdict:
+            bad.append((a, b, verdict, same))
+    return bad
